@@ -42,8 +42,8 @@ CFG = dict(
                          "real:sessions:class-silence": 25, "real:sessions:pair-9/3": 15, "real:sessions:pair-3/30": 8,
                          "real:sessions:open-sent-blind": 50, "real:expiry:notification-4-0": 80}),
     quick=[e2("exh", "event::verif::c08::run", 4, 300, part="exhaustive", nshards=4, depth=6),
-           e2("rnd", "event::verif::c08::run", 1, 60, part="random", random=10000),
-           e2("rt", "event::verif::c08b::run", 1, 120, sessions=240, workers=4)],
+           e2("rnd", "event::verif::c08::run", 1, 180, part="random", random=10000),
+           e2("rt", "event::verif::c08b::run", 1, 360, sessions=240, workers=4)],
     thorough=[e2("exh", "event::verif::c08::run", 16, 1200, part="exhaustive", nshards=16, depth=8),
               e2("rnd", "event::verif::c08::run", 4, 600, part="random", random=100000),
               # wall-clock cross-check of the VDriver transcription against real PeerSessions over
